@@ -46,7 +46,7 @@ type opRec struct {
 	start, end int64
 }
 
-var kinds = []string{"Store", "Lookup", "LookupNonExpired", "LookupByCommand", "MapCommand", "RenewLease", "IsExpired", "Expiration", "SetLastPeerVersion", "Invalidate", "InvalidateExpired", "DebugDump", "Snapshot", "Size", "ExpireHook"}
+var kinds = []string{"Store", "Lookup", "LookupNonExpired", "LookupByCommand", "MapCommand", "RenewLease", "IsExpired", "Expiration", "SetLastPeerVersion", "Invalidate", "InvalidateExpired", "DebugDump", "Snapshot", "Size", "ExpireHook", "ExpirePast"}
 
 type POp struct {
 	K   int  `json:"k"`
@@ -135,6 +135,10 @@ func runProgram(p Program) (string, map[string]bool) {
 					if e, ok := cache.Lookup(id); ok {
 						e.VerifSetExpiration(time.Now().Add(time.Hour))
 					}
+				case "ExpirePast":
+					if e, ok := cache.Lookup(id); ok {
+						e.VerifSetExpiration(time.Now().Add(-time.Second))
+					}
 				}
 				r.end = atomic.AddInt64(&seq, 1)
 				local = append(local, r)
@@ -192,14 +196,55 @@ func runProgram(p Program) (string, map[string]bool) {
 			}
 		}
 	}
-	live := 0
+	// the converse: a store that began after every invalidation and every forced expiry of its id had
+	// finished is still there. Sweeps and LookupNonExpired only remove EXPIRED entries, so they are no
+	// excuse, overlapping or not (a lookup that saw the old expired entry may not delete the fresh one).
 	for id := 0; id < 6; id++ {
-		if _, ok := cache.Lookup(sid(id)); ok {
-			live++
+		var lastKill, lastStoreStart int64 = -1, -1
+		for _, r := range recs {
+			if r.id != id {
+				continue
+			}
+			if (r.kind == "Invalidate" || r.kind == "ExpirePast") && r.end > lastKill {
+				lastKill = r.end
+			}
+			if r.kind == "Store" && r.start > lastStoreStart {
+				lastStoreStart = r.start
+			}
+		}
+		if lastStoreStart > lastKill && lastStoreStart >= 0 {
+			if _, ok := cache.Lookup(sid(id)); !ok {
+				return fmt.Sprintf("session %s was stored after its last invalidation/expiry had finished, yet Lookup does not find it (a completed Store was lost)", sid(id)), pairs
+			}
+			if _, ok := cache.LookupNonExpired(sid(id)); !ok {
+				return fmt.Sprintf("session %s was stored after its last invalidation/expiry had finished, yet LookupNonExpired does not find it", sid(id)), pairs
+			}
 		}
 	}
-	if cache.Size() != live || len(cache.Snapshot()) != live {
-		return fmt.Sprintf("Size()=%d, Snapshot has %d entries, %d ids are reachable", cache.Size(), len(cache.Snapshot()), live), pairs
+	// Size, Snapshot and the lookups agree: expired entries may still be filed (they are swept lazily) but
+	// are never handed out; everything else that is filed is found
+	snap := cache.Snapshot()
+	if cache.Size() != len(snap) {
+		return fmt.Sprintf("Size()=%d but Snapshot has %d entries at quiescence", cache.Size(), len(snap)), pairs
+	}
+	filed := map[string]*security.SessionEntry{}
+	for _, e := range snap {
+		if filed[e.ID()] != nil {
+			return fmt.Sprintf("Snapshot lists session %s twice", e.ID()), pairs
+		}
+		filed[e.ID()] = e
+	}
+	for id := 0; id < 6; id++ {
+		e, ok := cache.Lookup(sid(id))
+		f := filed[sid(id)]
+		switch {
+		case ok && (f == nil || f != e):
+			return fmt.Sprintf("Lookup finds session %s but Snapshot does not list that entry", sid(id)), pairs
+		case ok && e.IsExpired():
+			return fmt.Sprintf("Lookup handed out expired session %s", sid(id)), pairs
+		case !ok && f != nil && !f.IsExpired():
+			return fmt.Sprintf("session %s is filed and not expired, yet Lookup does not find it", sid(id)), pairs
+		}
 	}
 	return "", pairs
 }
@@ -263,6 +308,52 @@ func TestC17DirectedPairs(t *testing.T) {
 				t.Errorf("C17 violated: %s", v)
 			}
 		}
+	}
+}
+
+// TestC17LostStore: the narrow window directly. An expired entry sits under id X; four resumption-style
+// lookups of X run against one Store of a fresh entry for X. When all have returned the fresh entry must
+// be there: a lookup that judged the OLD entry expired may not remove the NEW one.
+func TestC17LostStore(t *testing.T) {
+	rounds := 12000 * kit.Scale(1, 8)
+	for _, procs := range []int{2, 4, 16} {
+		old := runtime.GOMAXPROCS(procs)
+		cache := security.NewSessionCache()
+		lost := 0
+		for r := 0; r < rounds && lost == 0; r++ {
+			stale := newEntry(0, time.Minute)
+			stale.VerifSetExpiration(time.Now().Add(-time.Second))
+			cache.Store(stale)
+			fresh := newEntry(0, time.Minute)
+			var wg sync.WaitGroup
+			start := make(chan struct{})
+			for g := 0; g < 4; g++ {
+				wg.Add(1)
+				go func(g int) {
+					defer wg.Done()
+					<-start
+					if g%2 == 0 {
+						_, _ = cache.LookupNonExpired(sid(0))
+					} else {
+						cache.InvalidateExpired()
+					}
+					_, _ = cache.LookupNonExpired(sid(0))
+				}(g)
+			}
+			wg.Add(1)
+			go func() { defer wg.Done(); <-start; runtime.Gosched(); cache.Store(fresh) }()
+			close(start)
+			wg.Wait()
+			if e, ok := cache.Lookup(sid(0)); !ok || e != fresh {
+				lost++
+				v := fmt.Sprintf("round %d (GOMAXPROCS %d): a fresh session stored while lookups/sweeps of the same id (holding an EXPIRED entry) were running is gone after all of them returned (found=%v)", r, procs, ok)
+				kit.Violation("C17", v, map[string]any{"lost_store_round": r, "procs": procs})
+				t.Errorf("C17 violated: %s", v)
+			}
+		}
+		ev.Case(fmt.Sprintf("lost-store/procs=%d", procs), fmt.Sprintf("lost-store:%d", procs))
+		ev.Count("lost_store_rounds", int64(rounds))
+		runtime.GOMAXPROCS(old)
 	}
 }
 
